@@ -578,6 +578,71 @@ pub fn cascade_sweep(ctx: &Ctx, mode: Mode, total: &mut Part) -> Value {
     "operands": "staircase without its last cell x {last cell, whole unpacked staircase, root cell (+ partial last cell, one partial stair for flagged modes)}"})
 }
 
+
+// ---------------------------------------------------------------------------------------------
+// aligned descendants: a coarse cell L against one deep cell whose offset inside L is j * 4^k
+// (first descendant, k levels down, of the j-th cell k levels above the deep depth) -- every k:
+// offsets computed in a narrower integer, or "first descendant" shortcuts, fail on one such k
+// ---------------------------------------------------------------------------------------------
+
+pub fn aligned_descendant_sweep(ctx: &Ctx, mode: Mode, total: &mut Part) -> Value {
+  let mut n = 0u64;
+  for (dl, l) in [(0u8, 7u64), (2, 117), (4, 1000)] {
+    for dm in [20u8, 29] {
+      let span = 2 * (dm - dl) as u32;
+      for k in 0..(dm - dl) as u32 {
+        for j in [1u64, 2, 3, 5, 6] {
+          let off = j << (2 * k);
+          if off >> span != 0 {
+            continue;
+          }
+          if ctx.over_budget() {
+            total.caps.push(format!("wall budget {}s reached in the aligned-descendant sweep", ctx.budget_s));
+            return json!({"search": "aligned-descendants", "capped": true});
+          }
+          let deep = (l << span) + off;
+          // flag mixes (Moc mode: all full)
+          let mixes: &[(bool, bool)] = if mode == Mode::Moc { &[(true, true)] } else { &[(true, true), (false, true), (true, false), (false, false)] };
+          for &(fl, fd) in mixes {
+            let a = Bm::new(dl, vec![(dl, l, fl)]);
+            // the deep cell alone, and together with a later deep cell in the same coarse cell and a cell after it
+            let mut e2 = vec![(dm, deep, fd)];
+            let last = (l << span) + ((1u64 << span) - 1);
+            if last != deep {
+              e2.push((dm, last, true));
+            }
+            let bs = [Bm::new(dm, vec![(dm, deep, fd)]), Bm::new(dm, e2)];
+            let (ai, am) = (a.to_impl(), a.to_map().expect("oracle: aligned operand"));
+            for b in &bs {
+              let (bi, bm) = (b.to_impl(), b.to_map().expect("oracle: aligned operand"));
+              total.stratum("aligned-descendants", 2, 0);
+              n += 1;
+              for (x, xi, xm, y, yi, ym) in [(&a, &ai, &am, b, &bi, &bm), (b, &bi, &bm, &a, &ai, &am)] {
+                for op in BIN_OPS {
+                  total.stratum("aligned-descendants", 0, 1);
+                  let (out, v) = transition(mode, op, x, xi, xm, Some((y, yi, ym)), total);
+                  if let Some(o) = out {
+                    total.outcome(hash64(&[o.entries.len() as u64, o.depth_max as u64, o.entries.first().map(|e| e.1).unwrap_or(0)]));
+                  }
+                  if let Some(v) = v {
+                    total.viol(v);
+                  }
+                }
+              }
+              total.stratum("aligned-descendants", 0, 1);
+              if let (_, Some(v)) = transition(mode, Op::Not, b, &bi, &bm, None, total) {
+                total.viol(v);
+              }
+            }
+          }
+        }
+      }
+    }
+  }
+  json!({"search": "aligned-descendants", "operand_pairs": n, "coarse_cells": "depth 0, 2, 4", "deep_depth_max": [20, 29],
+    "offsets": "j * 4^k for every k below the depth difference, j in {1, 2, 3, 5, 6}", "flags": "all four mixes for the flagged modes"})
+}
+
 pub fn specs(mode: Mode, quick: bool) -> Vec<(UniverseSpec, usize)> {
   let partial = mode != Mode::Moc;
   let mut v = vec![];
@@ -622,6 +687,7 @@ pub fn run(ctx: &Ctx, mode: Mode) -> i32 {
   searches.push(info);
   searches.push(size_sweep(ctx, mode, &mut total));
   searches.push(cascade_sweep(ctx, mode, &mut total));
+  searches.push(aligned_descendant_sweep(ctx, mode, &mut total));
   let mut extra = Map::new();
   extra.insert("searches".into(), json!(searches));
   let what = match mode {
